@@ -111,9 +111,9 @@ func (c *SrvConn) Close() error {
 	return c.Conn.Close()
 }
 
-func (c *SrvConn) Closed() bool   { return atomic.LoadInt32(&c.closed) == 1 }
-func (c *SrvConn) InRead() bool   { return atomic.LoadInt32(&c.inRead) > 0 }
-func (c *SrvConn) Written() int64 { return atomic.LoadInt64(&c.nWritten) }
+func (c *SrvConn) Closed() bool     { return atomic.LoadInt32(&c.closed) == 1 }
+func (c *SrvConn) InRead() bool     { return atomic.LoadInt32(&c.inRead) > 0 }
+func (c *SrvConn) Written() int64   { return atomic.LoadInt64(&c.nWritten) }
 func (c *SrvConn) BytesRead() int64 { return atomic.LoadInt64(&c.nRead) }
 
 // CliConn is the client end (a net.Conn with the mirrored addresses).
@@ -123,7 +123,14 @@ type CliConn struct {
 	Srv          *SrvConn
 }
 
-func (c *CliConn) LocalAddr() net.Addr  { return c.laddr }
+func (c *CliConn) LocalAddr() net.Addr { return c.laddr }
+
+// SetWindow makes this client a slow receiver: the server's writes wait once n bytes are unread (0: no limit).
+func (c *CliConn) SetWindow(n int) {
+	if w, ok := c.Conn.(interface{ SetWindow(int) }); ok {
+		w.SetWindow(n)
+	}
+}
 
 // Write records the time of the last client input (used by the memory guard
 // to tell growth-without-input from growth under load).
@@ -135,7 +142,7 @@ func (c *CliConn) Write(b []byte) (int, error) {
 var lastSend int64
 
 // LastClientSend is the time a harness client last sent anything.
-func LastClientSend() time.Time { return time.Unix(0, atomic.LoadInt64(&lastSend)) }
+func LastClientSend() time.Time         { return time.Unix(0, atomic.LoadInt64(&lastSend)) }
 func (c *CliConn) RemoteAddr() net.Addr { return c.raddr }
 
 // CloseWrite half-closes the client's sending direction.
